@@ -109,6 +109,89 @@ fn find_prop(id: &str) -> Option<PropDef> {
 
 /// Run one case under catch_unwind; a panic that escapes the monitors' own catchers is
 /// classified by where it was raised.
+// ---------------------------------------------------------------------------------------------
+// A process abort (allocation failure on a peer-chosen size, abort() in a dependency, stack
+// overflow) escapes catch_unwind. Each worker publishes the case it is executing; a SIGABRT /
+// SIGSEGV handler prints it, so that the runner (./check) can re-execute that one case in a fresh
+// process and, if it dies again, report it as a violation instead of a dead monitor.
+
+const MAX_WORKERS: usize = 256;
+static CUR_CASE: [[AtomicU64; 3]; MAX_WORKERS] = {
+    #[allow(clippy::declare_interior_mutable_const)]
+    const Z: AtomicU64 = AtomicU64::new(0);
+    #[allow(clippy::declare_interior_mutable_const)]
+    const ROW: [AtomicU64; 3] = [Z; 3];
+    [ROW; MAX_WORKERS]
+};
+
+thread_local! {
+    static WORKER_SLOT: std::cell::Cell<usize> = const { std::cell::Cell::new(usize::MAX) };
+}
+
+fn publish_case(gen_idx: usize, index: u64, seed: u64) {
+    let slot = WORKER_SLOT.with(|w| w.get());
+    if slot < MAX_WORKERS {
+        CUR_CASE[slot][0].store(gen_idx as u64 + 1, Ordering::Relaxed);
+        CUR_CASE[slot][1].store(index, Ordering::Relaxed);
+        CUR_CASE[slot][2].store(seed, Ordering::Relaxed);
+    }
+}
+
+extern "C" fn on_fatal_signal(sig: libc::c_int) {
+    // async-signal-safe: fixed buffer, write(2), _exit
+    fn put(buf: &mut [u8; 160], at: &mut usize, s: &[u8]) {
+        for b in s {
+            if *at < buf.len() {
+                buf[*at] = *b;
+                *at += 1;
+            }
+        }
+    }
+    fn put_u64(buf: &mut [u8; 160], at: &mut usize, mut v: u64) {
+        let mut tmp = [0u8; 20];
+        let mut n = 0;
+        loop {
+            tmp[n] = b'0' + (v % 10) as u8;
+            v /= 10;
+            n += 1;
+            if v == 0 {
+                break;
+            }
+        }
+        while n > 0 {
+            n -= 1;
+            put(buf, at, &tmp[n..n + 1]);
+        }
+    }
+    let slot = WORKER_SLOT.with(|w| w.get());
+    let mut buf = [0u8; 160];
+    let mut at = 0;
+    put(&mut buf, &mut at, b"\nFATAL-SIGNAL-IN-CASE signal=");
+    put_u64(&mut buf, &mut at, sig as u64);
+    if slot < MAX_WORKERS && CUR_CASE[slot][0].load(Ordering::Relaxed) != 0 {
+        put(&mut buf, &mut at, b" gen_index=");
+        put_u64(&mut buf, &mut at, CUR_CASE[slot][0].load(Ordering::Relaxed) - 1);
+        put(&mut buf, &mut at, b" index=");
+        put_u64(&mut buf, &mut at, CUR_CASE[slot][1].load(Ordering::Relaxed));
+        put(&mut buf, &mut at, b" case_seed=");
+        put_u64(&mut buf, &mut at, CUR_CASE[slot][2].load(Ordering::Relaxed));
+    } else {
+        put(&mut buf, &mut at, b" outside-a-case");
+    }
+    put(&mut buf, &mut at, b"\n");
+    unsafe {
+        libc::write(1, buf.as_ptr() as *const libc::c_void, at);
+        libc::_exit(134);
+    }
+}
+
+fn install_fatal_signal_reporter() {
+    unsafe {
+        libc::signal(libc::SIGABRT, on_fatal_signal as *const () as libc::sighandler_t);
+        libc::signal(libc::SIGSEGV, on_fatal_signal as *const () as libc::sighandler_t);
+    }
+}
+
 /// Multiplier applied to the base count of every sampled generator (see cmd_run).
 fn workload_scale(prop: &str, tier: Tier) -> u64 {
     let (q, t) = match prop {
@@ -258,6 +341,7 @@ fn cmd_run(args: &[String]) -> i32 {
         })
         .collect();
 
+    println!("GENERATORS {}", gens.iter().map(|g| g.name).collect::<Vec<_>>().join(" "));
     // work queue: batches (gen idx, lo, hi). The lite tier (Miri / sanitizer builds, often cut
     // short by --max-secs) takes one case of every generator in turn so that a slow generator
     // cannot starve the others.
@@ -292,7 +376,8 @@ fn cmd_run(args: &[String]) -> i32 {
     let first_viol_ms = Arc::new(AtomicU64::new(0));
     let gens = Arc::new(gens);
     let mut handles = Vec::new();
-    for _ in 0..threads.max(1) {
+    install_fatal_signal_reporter();
+    for worker in 0..threads.max(1) {
         let cursor = cursor.clone();
         let batches = batches.clone();
         let gens = gens.clone();
@@ -307,6 +392,7 @@ fn cmd_run(args: &[String]) -> i32 {
             std::thread::Builder::new()
                 .stack_size(64 << 20)
                 .spawn(move || {
+                    WORKER_SLOT.with(|w| w.set(worker));
                     let p = find_prop(pid).unwrap();
                     let mut rep = Report::new();
                     rep.verbose = verbose;
@@ -322,6 +408,7 @@ fn cmd_run(args: &[String]) -> i32 {
                         for index in lo..hi {
                             let cs = util::case_seed(seed, g.name, index);
                             let before = rep.violations.len();
+                            publish_case(gi, index, cs);
                             guarded_case(&p, g.name, index, cs, tier, &mut rep);
                             done_counts[gi].fetch_add(1, Ordering::Relaxed);
                             if rep.violations.len() > before {
@@ -520,6 +607,9 @@ fn cmd_replay(args: &[String]) -> i32 {
     };
     let mut rep = Report::new();
     rep.verbose = true;
+    install_fatal_signal_reporter();
+    WORKER_SLOT.with(|w| w.set(0));
+    publish_case(0, index, seed);
     guarded_case(&p, &gen, index, seed, tier, &mut rep);
     println!(
         "replayed {} gen={} index={} seed={}: {} violation(s)",
